@@ -25,3 +25,44 @@ Proof.
   assert (L3 : (3 < List.length ex_heap)%nat) by (vm_compute; repeat constructor).
   specialize (H L3). destruct frame_witness as [_ [_ [A B]]]. rewrite A, B in H. discriminate H.
 Qed.
+
+(* ---- documented domains that validate() does not enforce ---------------------------------------- *)
+(* dc_sig_algs = [rsa_pss_rsae_sha256]: outside the documented domain, accepted *)
+Definition ex_heap_dc : heap := with_cell ex_heap F_dc_sig_algs [VPair 8 4].
+Lemma dc_witness :
+  wf ex_heap_dc ex_settings = true /\ typed (view ex_heap_dc ex_settings) = true /\
+  dom std_tables D_dc_sig_algs (view ex_heap_dc ex_settings) = false /\
+  is_ok (snd (validate std_tables all_backends ex_heap_dc ex_settings)) = true.
+Proof. vm_compute. repeat split. Qed.
+
+(* ticketCipher = chacha20-poly1305 with a 16-byte key: outside the documented domain, accepted *)
+Definition ex_heap_tk : heap := with_cell ex_heap F_ticketKeys [VBytes [0;0;0;0;0;0;0;0;0;0;0;0;0;0;0;0]].
+Definition ex_settings_tk : settings := with_scalars ex_settings ex_scalars_chacha_ticket.
+Lemma ticket_witness :
+  wf ex_heap_tk ex_settings_tk = true /\ typed (view ex_heap_tk ex_settings_tk) = true /\
+  dom std_tables D_ticketKeys (view ex_heap_tk ex_settings_tk) = false /\
+  is_ok (snd (validate std_tables all_backends ex_heap_tk ex_settings_tk)) = true.
+Proof. vm_compute. repeat split. Qed.
+
+Lemma rejects_refuted :
+  ~ (forall T I h s d, wf h s = true -> typed (view h s) = true -> dom T d (view h s) = false ->
+       snd (validate T I h s) = Err ValueError).
+Proof.
+  intros H. destruct dc_witness as [A [B [C D]]].
+  rewrite (H std_tables all_backends ex_heap_dc ex_settings D_dc_sig_algs A B C) in D. discriminate D.
+Qed.
+
+(* a value of the wrong kind (an int where a PSK tuple is expected) makes validate() raise TypeError *)
+Definition ex_heap_badpsk : heap := with_cell ex_heap F_pskConfigs [VInt 5].
+Lemma wrong_kind_witness :
+  wf ex_heap_badpsk ex_settings = true /\ typed (view ex_heap_badpsk ex_settings) = false /\
+  snd (validate std_tables all_backends ex_heap_badpsk ex_settings) = Err TypeError.
+Proof. vm_compute. repeat split. Qed.
+
+(* non-vacuity of the domain theorems: the default object is typed, inside every domain and supported;
+   a 511-bit minimum key size is typed and outside D_keySizes *)
+Lemma default_in_domain :
+  wf ex_heap ex_settings = true /\ typed (view ex_heap ex_settings) = true /\
+  in_domain std_tables (view ex_heap ex_settings) = true /\
+  something_supported no_backends (view ex_heap ex_settings) = true.
+Proof. vm_compute. repeat split. Qed.
